@@ -208,6 +208,8 @@ def struct_case(draw, tier="quick"):
     k = draw(st.integers(1, 4))
     names = draw(st.lists(st.sampled_from(["id", "id", "v", "w", None, "a b", "", "x"]), min_size=k, max_size=k))
     n = draw(st.sampled_from([0, 0, 1, 2, 3]))
+    if draw(st.integers(0, 24)) == 0:
+        n = draw(st.sampled_from([1000, 1001, 1003, 65]))          # past the sizes at which selection switches strategy
     how_empty = draw(st.sampled_from(["built", "mask", "slice"]))
     return {"names": names, "n": n, "how": how_empty, "rev": draw(st.booleans())}
 
@@ -229,6 +231,7 @@ def run_struct(case, ctx):
         "sort_by-two-keys": lambda: t.sort_by([t.cols()[0], t.cols()[-1]], reverse=[case["rev"], not case["rev"]]),
         "slice": lambda: t[0:max(0, len(t) - 1)], "reverse-slice": lambda: t[::-1],
         "mask": lambda: t[[i % 2 == 0 for i in range(len(t))]] if len(t) else t[S.Vector([], dtype=bool)],
+        "index-list": lambda: t[[0, len(t) - 1, 0]] if len(t) else t[0:0], "index-vector": lambda: t[S.Vector([len(t) - 1, 0])] if len(t) else t[0:0],
         "copy": lambda: t.copy(), "stack": lambda: t >> S.Vector(list(range(len(t))), name="extra"),
         "stack-table": lambda: t >> t,
     }
@@ -244,8 +247,17 @@ def run_struct(case, ctx):
         if list(r.column_names()) != want:
             dup = "repeated-names" if len(set(names)) < len(names) else "distinct-names"
             return ctx.fail(f"structure/{name}/names/{dup}/{'no-rows' if len(t) == 0 else 'rows'}", f"{names} ({len(t)} rows) -> {r.column_names()}")
+    # a single named vector of the same length: every selection keeps its name
+    v = S.Vector([(i * 3) % 7 for i in range(len(t))], name="vname")
+    if len(v):
+        for what, f in (("index-list", lambda: v[[0, len(v) - 1]]), ("index-vector", lambda: v[S.Vector([0, len(v) - 1])]), ("slice", lambda: v[::2]),
+                        ("mask", lambda: v[[i % 3 == 0 for i in range(len(v))]]), ("sort", lambda: v.sort_by(reverse=case["rev"])), ("copy", lambda: v.copy())):
+            ctx.ev()
+            r = f()
+            if isinstance(r, S.Vector) and not isinstance(r, S.Table) and r.name != "vname":
+                return ctx.fail(f"structure/vector-{what}/name-lost/{'long' if len(v) > 1000 else 'short'}", f"{len(v)} elements: name {r.name!r}")
     # joins keep left names followed by right names
-    if len(t) and t.cols()[0].schema() is not None:
+    if 0 < len(t) <= 100 and t.cols()[0].schema() is not None:
         ctx.ev()
         try:
             j = t.inner_join(t, t.cols()[0], t.cols()[0], expect="many_to_many")
@@ -266,10 +278,11 @@ def _agg_bases(name):
     b = ref_sanitise(name)
     if b is None:
         return ["col"]
-    out = [b]
+    # the sanitised column name is the accessor the table advertises for it (C17): a base that would shadow a public
+    # attribute, or that looks like an indexed accessor, carries a trailing underscore - and keeps it in front of _<function>
     if is_reserved(b) or re.match(r"^.+__\d+$", b):
-        out.append(b + "_")
-    return out
+        return [b + "_"]
+    return [b]
 
 
 def _matches(out, base):
